@@ -92,7 +92,101 @@ def _drop_level_from_orders(spec, einsum, root, n_old):
             st[einsum][key] = [y for y in (fix(x) for x in st[einsum][key]) if y is not None]
 
 
+def _einsum_ranks(spec, out):
+    """rank names an Einsum's bindings may mention: its loop ranks (incl. partition levels) and root ranks"""
+    expr = [e for e in spec["exprs"] if dense.output_name(e) == out]
+    if not expr:
+        return set()
+    names = set(v.upper() for v in dense.index_vars(expr[0]))
+    for x in (spec.get("loop_order") or {}).get(out) or []:
+        names.add(x)
+    for key, dirs in ((spec.get("partitioning") or {}).get(out) or {}).items():
+        ks = [x.strip() for x in key.strip("() ").split(",")]
+        root = "".join(ks)
+        n = len([d for d in dirs if not d.startswith(("follow", "flatten"))])
+        names.add(root)
+        for i in range(n + 1):
+            names.add(root + str(i))
+    return names
+
+
+def _fix_bindings(spec):
+    """Keep a metrics-mode spec self-consistent after something was dropped: bindings, formats and spacetime of
+    dropped Einsums / tensors / ranks go as well (a shrunk spec that merely became inconsistent is not a
+    smaller instance of the same failure)."""
+    if not spec.get("bindings"):
+        return spec
+    outs = [dense.output_name(e) for e in spec["exprs"]]
+    used = set(_used_tensors(spec))
+    b2 = {}
+    for o, bl in spec["bindings"].items():
+        if o not in outs:
+            continue
+        expr = [e for e in spec["exprs"] if dense.output_name(e) == o][0]
+        mine = set([o] + dense.expr_tensors(expr))
+        ranks = _einsum_ranks(spec, o)
+        nbl = []
+        for ent in bl:
+            if "component" not in ent:
+                nbl.append(ent)
+                continue
+            nb = []
+            for b in ent.get("bindings") or []:
+                if "tensor" in b and b["tensor"] not in mine:
+                    continue
+                if "leader" in b and b["leader"] not in mine:
+                    continue
+                if "rank" in b and b["rank"] not in ranks:
+                    continue
+                if b.get("evict-on") not in (None, "root") and b["evict-on"] not in ranks:
+                    continue
+                if any(r not in ranks for r in (b.get("init-ranks") or []) + (b.get("final-ranks") or [])):
+                    continue
+                nb.append(b)
+            if nb or not ent.get("bindings"):
+                nbl.append(dict(ent, bindings=nb))
+        b2[o] = nbl
+    spec["bindings"] = b2
+    if spec.get("format"):
+        spec["format"] = {t: f for t, f in spec["format"].items() if t in used}
+    for sec in ("spacetime", "loop_order", "partitioning"):
+        if spec.get(sec):
+            spec[sec] = {o: v for o, v in spec[sec].items() if o in outs} or None
+    return spec
+
+
+def _metrics_candidates(spec, meta, inputs):
+    """drop one component entry / one binding of an Einsum"""
+    for o, bl in (spec.get("bindings") or {}).items():
+        for i, ent in enumerate(bl):
+            if "component" not in ent:
+                continue
+            s = copy.deepcopy(spec)
+            del s["bindings"][o][i]
+            yield s, meta, inputs
+        for i, ent in enumerate(bl):
+            bs = ent.get("bindings") or []
+            if "component" in ent and len(bs) > 1:
+                for j in range(len(bs)):
+                    s = copy.deepcopy(spec)
+                    del s["bindings"][o][i]["bindings"][j]
+                    yield s, meta, inputs
+
+
 def candidates(spec, meta, inputs):
+    if spec.get("bindings"):
+        for c in _metrics_candidates(spec, meta, inputs):
+            yield c
+        for s, m, ins in _candidates(spec, meta, inputs):
+            if s is not spec:
+                s = _fix_bindings(s)
+            yield s, m, ins
+    else:
+        for c in _candidates(spec, meta, inputs):
+            yield c
+
+
+def _candidates(spec, meta, inputs):
     # 1. fewer input sets
     if len(inputs) > 1:
         for i in range(len(inputs)):
